@@ -25,6 +25,15 @@ def gen_message(rng, echo, faulty):
     noarg_ok = [d for d in echo.decls if (d.beh in ('unit', 'echo') or d.beh.startswith('const')) and not (d.beh == 'echo' and 'f64' in d.args)]
     for k in range(n):
         if k == fpos:
+            if kind == 'syntax' and rng.random() < 0.2:
+                # an empty unit where a header is expected (`A;;B`, `;B`): one error, the unit written behind it does not run
+                # (an empty unit at the very end is the legal trailing `;`, hence the unit behind it)
+                d2 = rng.choice(noarg_ok)
+                t2, _e2, _ = G.valid_call(rng, echo, d2, newline=False, absolute=not d2.cmd.startswith('*'))
+                texts.append(rng.choice([b'', b' ', b'\t']))
+                texts.append(t2)
+                errs.append(None)
+                break
             if kind == 'syntax':
                 texts.append(rng.choice([b'X 1 2', b'X ,', b'X!', b'X "a" "b"', b'X 1,,2', b'&', b'X #', b'BOOL 1e', b'SYST::A', b'STR "it\'s" !',
                                          b"STR 'a\"b' 'c'", b'TWO 1,"it\'s" x', b'X "a;b" !', b'SET:U8 5,', b'TWO 1,"x" ,', b'ECHO:U8? 7 , ', b'SET:STR "a",']))
